@@ -44,7 +44,9 @@ RULE = (
     "CONCATENATED streams (2-3 complete record streams in one file: plain, gzip of the whole, gzip members), whose embedded "
     "header frame must never reach the selector.  Text form: the post-filter uses a fresh interpreted Selector(text); family "
     "text-engine runs expressions on which the engines are known to differ (only there) after the same text was compiled "
-    "in the process.  Re-iteration: every reader opened with a selector is also iterated partially, then again twice; every "
+    "in the process.  Reader forms: besides RecordReader(path, selector=S) every source is also read through "
+    "RecordReader(fileobj=fp, selector=S) and RecordReader('<adapter>://' [?query], fileobj=fp, selector=S) wherever the "
+    "selector-less read through that form reproduces the path-based read (stream family, jsonfile, avro).  Re-iteration: every reader opened with a selector is also iterated partially, then again twice; every "
     "record it EVER yields must satisfy a fresh selector (later-iteration yields are counted).  Equal-but-different constructor "
     "arguments (1 / True / 1.0, 0 / False / 0.0 / -0.0 in varint / boolean / float fields of different record types, and as "
     "literals): whitelisted constructors over them in sources of both orders, and in the fresh-process comparison, where the "
@@ -420,6 +422,45 @@ def read_all(url, selector=None):
             pass
 
 
+# other ways of opening the same source: a file object with adapter auto-detection, and a file object whose adapter is named
+# by a scheme-only url (with and without query options).  Which of them work for an adapter is decided per source by a
+# selector-less read through the same form.
+OPENERS = {
+    "fileobj": lambda scheme: None,
+    "url+fileobj": lambda scheme: scheme + "://",
+    "url?query+fileobj": lambda scheme: scheme + "://?frv=1",
+}
+SCHEMES = {"stream": "stream", "stream-gz": "stream", "stream-concat": "stream", "stream-concat-gz": "stream", "stream-concat-gzmembers": "stream",
+           "jsonfile": "jsonfile", "jsonfile-plain": "jsonfile", "avro": "avro", "csvfile": "csvfile", "sqlite": "sqlite"}
+
+
+def read_all_fileobj(path, opener_url, selector=None):
+    """Like read_all, through RecordReader([url,] fileobj=<binary file>, selector=...)."""
+    from flow.record import RecordReader
+
+    out = []
+    with open(path, "rb") as fp:
+        try:
+            kw = {"fileobj": fp}
+            if selector is not None:
+                kw["selector"] = selector
+            rd = RecordReader(opener_url, **kw) if opener_url is not None else RecordReader(**kw)
+        except Exception as e:  # noqa: BLE001
+            return out, e
+        try:
+            try:
+                for r in rd:
+                    out.append(r)
+            except Exception as e:  # noqa: BLE001
+                return out, e
+            return out, None
+        finally:
+            try:
+                rd.close()
+            except Exception:  # noqa: BLE001
+                pass
+
+
 def stable_obs(a, b):
     """Two selector-less reads agree -> (observations to compare with, drop) ; drop = metadata slots left out."""
     oa, ob = [observe.obs(x) for x in a], [observe.obs(x) for x in b]
@@ -619,7 +660,7 @@ def generate(ctx):
         for j in range(3):
             yield {"k": "filter", "adapter": adapter, "seq": subseed("c10", ctx.seed, ctx.shard, "flatseq", adapter, j), "shape": "flat",
                    "es": subseed("c10", ctx.seed, ctx.shard, "flatexpr", adapter, j), "force": "data"}
-    for i in range(ctx.scale(90, 1000)):
+    for i in range(ctx.scale(60, 900)):
         adapter = adapters[(i + ctx.shard) % len(adapters)]
         yield {"k": "filter", "adapter": adapter, "seq": subseed("c10", ctx.seed, ctx.shard, "seq", i),
                "es": subseed("c10", ctx.seed, ctx.shard, "expr", i)}
@@ -816,12 +857,56 @@ def filter_one(ctx, case, adapter, kind, url, expr, ek, form, plain, plain_obs, 
     else:
         ctx.violation(None, "only one of {reader with selector, filtering afterwards} raises (%s)" % adapter,
                       detail=dict(detail, reader=repr(got_exc)[:300], afterwards=repr(exp_exc)[:300], yielded=len(got_obs), expected=len(expected)))
+    open_forms(ctx, adapter, url, expr, form, detail, plain_obs, ob, expected, exp_exc)
     reiterate(ctx, adapter, url, expr, form, detail)
     ctx.cell(adapter, form, ek)
     ctx.cell("sequence", adapter, kind)
     ctx.nontrivial(adapter, case["seq"], expr, form)
     ctx.sample({"adapter": adapter, "expression": expr, "form": form, "source_records": len(plain), "kept": len(expected),
                 "raised": type(exp_exc).__name__ if exp_exc else None}, kind=adapter + ":" + form)
+
+
+def open_forms(ctx, adapter, url, expr, form, detail, plain_obs, ob, expected, exp_exc):
+    """The same comparison for the other reader forms: RecordReader(fileobj=fp, selector=S) and RecordReader('<adapter>://'
+    [?query], fileobj=fp, selector=S).  A form takes part when its selector-less read reproduces the path-based read."""
+    path = url.split("://", 1)[-1]
+    scheme = SCHEMES.get(adapter)
+    cache = ctx.state.setdefault("opener_cache", {})
+    if cache.get("url") != url:
+        cache.clear()
+        cache["url"] = url
+    for name, mk in OPENERS.items():
+        opener_url = mk(scheme)
+        if name not in cache:  # once per source
+            base, base_exc = read_all_fileobj(path, opener_url)
+            try:
+                cache[name] = base_exc is None and [ob(r) for r in base] == plain_obs
+            except Exception:  # noqa: BLE001
+                cache[name] = False
+            if not cache[name]:
+                ctx.event("reader_form_not_applicable:%s:%s" % (adapter, name))
+        if not cache[name]:
+            continue
+        try:
+            sel_arg = make_form(ctx, form, expr)
+        except Exception:  # noqa: BLE001
+            return
+        got, got_exc = read_all_fileobj(path, opener_url, sel_arg if sel_arg != "" else None)
+        got_obs = [ob(r) for r in got]
+        ctx.event("reader_form:%s:%s" % (adapter, name))
+        ctx.event("reader_form_compared")
+        d = dict(detail, reader_form=name, reader_url=opener_url)
+        if exp_exc is None and got_exc is None:
+            if got_obs != expected:
+                ctx.violation(None, "reading with a selector differs from filtering afterwards (%s opened as %s)" % (adapter, name),
+                              detail=dict(d, yielded=len(got_obs), expected=len(expected), first_difference=observe.first_diff(expected, got_obs)))
+        elif (exp_exc is None) != (got_exc is None):
+            ctx.violation(None, "only one of {reader with selector, filtering afterwards} raises (%s opened as %s)" % (adapter, name),
+                          detail=dict(d, reader=repr(got_exc)[:300], afterwards=repr(exp_exc)[:300]))
+        elif type(exp_exc).__name__ != type(got_exc).__name__ or got_obs != expected:
+            ctx.violation(None, "matching raises differently when the reader filters (%s opened as %s)" % (adapter, name),
+                          detail=dict(d, reader=repr(got_exc)[:200], afterwards=repr(exp_exc)[:200]))
+        ctx.cell("reader-form", adapter, name, form)
 
 
 def reiterate(ctx, adapter, url, expr, form, detail):
@@ -1136,6 +1221,9 @@ def finish(ctx):
     ctx.require(ev["compared_ok"] > 0, "no filter case was compared")
     ctx.require(ev["purity_cases"] > 0, "no purity case ran")
     ctx.require(ev["reiterations"] > 0, "no reader was iterated a second time")
+    for a in ("stream", "jsonfile", "avro"):
+        ctx.require(ev["compared:" + a] < 20 or ev["reader_form:%s:url+fileobj" % a] > 0,
+                    "the reader form RecordReader('%s://', fileobj=..., selector=...) was never compared" % a)
     ctx.require(ev["textengine_cases"] == 0 or ev["textengine_engines_differ_in_memory"] > 0,
                 "the text-engine family never met records on which the two engines differ")
     ctx.require(ev["mutate_answer_changes"] > 0, "no mutate-then-rematch case in which the answer changes ran")
